@@ -73,6 +73,7 @@ func run(c *an.Ctx, p *props.Prop) (code int) {
 			return
 		}
 		c.P = prog
+		an.SetOpaqueUnits()
 		p.Run(c)
 	}()
 	return c.Finish(fatal)
